@@ -205,6 +205,40 @@ func nativeAtom(a *Atom, f *Fact, n int64) nval {
 				if len(args) == 1 && args[0].k == "str" {
 					return nBool(strings.HasSuffix(recv.s, args[0].s))
 				}
+			case "Index", "LastIndex", "Count", "Compare":
+				if len(args) == 1 && args[0].k == "str" {
+					switch a.F {
+					case "Index":
+						return nInt(int64(strings.Index(recv.s, args[0].s)))
+					case "LastIndex":
+						return nInt(int64(strings.LastIndex(recv.s, args[0].s)))
+					case "Count":
+						return nInt(int64(strings.Count(recv.s, args[0].s)))
+					}
+					return nInt(int64(strings.Compare(recv.s, args[0].s)))
+				}
+			case "Trim":
+				if len(args) == 0 {
+					return nStr(strings.TrimSpace(recv.s))
+				}
+			case "Replace":
+				if len(args) == 2 && args[0].k == "str" && args[1].k == "str" {
+					return nStr(strings.ReplaceAll(recv.s, args[0].s, args[1].s))
+				}
+			case "Repeat":
+				if len(args) == 1 && args[0].k == "int" && args[0].i >= 0 && args[0].i < 16 {
+					return nStr(strings.Repeat(recv.s, int(args[0].i)))
+				}
+			case "In":
+				for _, x := range args {
+					if x.k != "str" {
+						return none
+					}
+					if x.s == recv.s {
+						return nBool(true)
+					}
+				}
+				return nBool(false)
 			}
 			return none
 		}
